@@ -721,7 +721,10 @@ fn two_block_jobs(tier: Tier, v: &mut Vec<Job>) {
             match tier {
                 Tier::Quick => {
                     v.push(two_block_job(spec, name, a.clone(), b.clone(), COARSE, 2));
-                    v.push(two_block_job(spec, name, a, b, FOCUS_FILL, 4));
+                    // the pipeline witness of F1 needs four deviations; the 3-transaction set is
+                    // four times as expensive and gets bound 3 here (5 in the thorough tier)
+                    let b4 = if a.len() >= 3 { 3 } else { 4 };
+                    v.push(two_block_job(spec, name, a, b, FOCUS_FILL, b4));
                 }
                 Tier::Thorough => {
                     v.push(two_block_job(spec, name, a.clone(), b.clone(), COARSE, 3));
